@@ -148,6 +148,8 @@ def run(chk):
         i0 = len(cases)
         cases.append(C.encode_case("inside_convex", sc=C.flat(pts), qs=C.flat(Vp), idx=F))
         cases.append(C.encode_case("dist2_mesh", sc=C.flat(pts), qs=C.flat(Vp), idx=tris))
+        # the algorithm of the code (core / extruded faces / edge cylinders / vertex spheres; Model/Sphero.v), in exact arithmetic
+        cases.append(C.encode_case("sphero_inside", sc=[C.fr(r) ** 2] + C.flat(pts), qs=C.flat(Vp), idx=F))
         meta.append(dict(cls="sphero", kind=kind, V=Vp, r=r, pts=pts, got=got, i0=i0))
 
     res = C.run_model(cases)
@@ -196,6 +198,16 @@ def run(chk):
                 if bool(m["got"][k]) != exact:
                     chk.violation("spheropolyhedron-is_inside", dict(kind=m["kind"], vertices=V.tolist(), radius=r, point=pts[k].tolist(),
                                                                     impl=bool(m["got"][k]), exact=exact, dist_to_core=float(np.sqrt(d2)), in_core=incore))
+                # model of the algorithm vs. implementation, and vs. the exact specification (the theorem C05_spheropolyhedron_* are about it)
+                ralg = res[m["i0"] + 2]
+                alg = bool(ralg[3 * k])
+                chk.count("sphero:model-of-algorithm")
+                if alg != bool(m["got"][k]):
+                    chk.violation("spheropolyhedron-model-vs-implementation", dict(kind=m["kind"], vertices=V.tolist(), radius=r, point=pts[k].tolist(),
+                                  impl=bool(m["got"][k]), model=alg, faces_looked_at=int(ralg[3 * k + 2]), dist_to_core=float(np.sqrt(d2)), in_core=incore))
+                elif alg != exact:
+                    chk.violation("spheropolyhedron-algorithm-vs-specification", dict(kind=m["kind"], vertices=V.tolist(), radius=r, point=pts[k].tolist(),
+                                  model=alg, exact=exact, dist_to_core=float(np.sqrt(d2)), in_core=incore), no_input=False)
             else:
                 code, cov, deg, csum = r0[4 * k], int(r0[4 * k + 1]), r0[4 * k + 2], int(r0[4 * k + 3])
                 if d2 <= (1e-9 * size) ** 2:
